@@ -208,9 +208,12 @@ def bestLoopA (cfg : Cfg) (crit : Array WI) :
             match csub cfg lo w with
             | none => .abort
             | some lo' =>
-              let pl := pl.set! o lo'
               if u ≥ pl.size then .abort
-              else bestLoopA cfg crit fuel (ids.set! id u) (pl.set! u (pl[u]! + w)) (cnt + 1)
+              else
+                let nu := pl[u]! + w
+                -- guard of commit bff6050 (N9)
+                if !(decide (lo' < lo) && decide (nu < lo)) then .ok ids.toList cnt
+                else bestLoopA cfg crit fuel (ids.set! id u) ((pl.set! o lo').set! u nu) (cnt + 1)
           else .abort
 
 def bestA (cfg : Cfg) (ids : Array Nat) (ws : Array Int) : Outcome :=
@@ -273,6 +276,12 @@ for two successive calls (the model is a function of the input, so it just runs 
 the code's result – does not depend on). -/
 def handle (toks : List String) : String :=
   let t := toks.toArray
+  -- raw (non-integer-valued) f64 weights, given as bit patterns: the part loads are ROUNDED sums
+  -- whose value depends on the order rayon's fold/reduce adds them in, which the model does not
+  -- fix; these cases are judged by the harness's exact-arithmetic oracle under a watchdog
+  if t.any (fun x => x.startsWith "f64bits") then
+    "skip raw-float (oracle only: rounded part loads depend on rayon's summation order)"
+  else
   match t[0]? with
   | some "twice" =>
     match (do
